@@ -743,6 +743,37 @@ fn unpriv_mode(uid: u32) {
             std::fs::set_permissions(t.join(p), std::fs::Permissions::from_mode(0o755)).unwrap();
         }
     }
+    // permission-bit scenarios: everything below perm/ belongs to `uid`, modes as the names say
+    for twin in ["A", "B"] {
+        let p = base.join(twin).join("perm");
+        std::fs::create_dir(&p).unwrap();
+        let file = |rel: &str, bytes: &[u8], mode: u32| {
+            std::fs::write(p.join(rel), bytes).unwrap();
+            own(&p.join(rel));
+            std::fs::set_permissions(p.join(rel), std::fs::Permissions::from_mode(mode)).unwrap();
+        };
+        for d in ["dir300", "dir300/emptysub", "dir300/sub2", "dir500", "dir500/sub", "dir100", "dir700"] {
+            std::fs::create_dir(p.join(d)).unwrap();
+            own(&p.join(d));
+        }
+        file("src", b"source bytes", 0o644);
+        file("src400", b"read-only source", 0o400);
+        for (n, m) in [("d200", 0o200), ("d600", 0o600), ("d644", 0o644), ("w200", 0o200), ("a200", 0o200), ("o200", 0o200), ("fc200", 0o200)] {
+            file(n, b"old content that is longer than the source", m);
+        }
+        file("r400", b"only readable", 0o400);
+        file("dir300/f", b"f", 0o644);
+        file("dir300/g", b"g", 0o644);
+        file("dir300/sub2/h", b"h", 0o644);
+        file("dir500/a", b"a", 0o644);
+        file("dir500/b", b"b", 0o600);
+        file("dir100/f", b"in x-only dir", 0o644);
+        file("dir700/keep", b"k", 0o600);
+        own(&p);
+        for (d, m) in [("dir300", 0o300), ("dir500", 0o500), ("dir100", 0o100), ("dir700", 0o700)] {
+            std::fs::set_permissions(p.join(d), std::fs::Permissions::from_mode(m)).unwrap();
+        }
+    }
     std::io::stdout().flush().unwrap();
     let pid = unsafe { libc::fork() };
     if pid == 0 {
@@ -818,11 +849,90 @@ fn unpriv_mode(uid: u32) {
         });
         emit("new_tree_in_own_dir", "create_dir_all+write+read_to_string", s.is_ok(), if matches!(t, Ok(Ok(_))) { "ok" } else { "err" },
              matches!((&s, &t), (Ok(x), Ok(Ok(y))) if x == y), String::new());
+        // ---- permission bits: (scenario, op, std on twin A, tiny on twin B); what is compared afterwards (by the
+        //      parent, as root, because the child may not be able to read it) is listed in PERM_CMP
+        let u = |p: PathBuf| ustr(&p.display().to_string());
+        let (pa, pb) = (a.join("perm"), b.join("perm"));
+        let t_ok = |r: Result<tiny_std::Result<()>, String>| -> (bool, String) {
+            match r {
+                Ok(Ok(())) => (true, String::new()),
+                Ok(Err(e)) => (false, format!("{e}")),
+                Err(m) => (false, format!("panic: {m}")),
+            }
+        };
+        let mut perm = |scenario: &str, op: &str, s: std::io::Result<()>, t: Result<tiny_std::Result<()>, String>| {
+            let (tok, note) = t_ok(t);
+            println!("{}", json!({"ev": "unpriv", "scenario": scenario, "op": op, "std": if s.is_ok() { "ok" } else { "err" },
+                                  "tiny": if tok { "ok" } else { "err" }, "same": false, "cmp": true, "note": note}));
+        };
+        for dst in ["d200", "d600", "d644"] {
+            perm(&format!("copy_onto_{dst}"), "copy", std::fs::copy(pa.join("src"), pa.join(dst)).map(|_| ()),
+                 guarded(|| tiny_std::fs::copy_file(&u(pb.join("src")), &u(pb.join(dst))).map(|_f| ())));
+        }
+        perm("copy_from_0400_to_new", "copy", std::fs::copy(pa.join("src400"), pa.join("dir700/new")).map(|_| ()),
+             guarded(|| tiny_std::fs::copy_file(&u(pb.join("src400")), &u(pb.join("dir700/new"))).map(|_f| ())));
+        perm("file_copy_onto_fc200", "File::copy", std::fs::copy(pa.join("src"), pa.join("fc200")).map(|_| ()),
+             guarded(|| tiny_std::fs::File::open(&u(pb.join("src")))?.copy(&u(pb.join("fc200"))).map(|_f| ())));
+        perm("write_0200", "write", std::fs::write(pa.join("w200"), b"new"), guarded(|| tiny_std::fs::write(&u(pb.join("w200")), b"new")));
+        perm("append_0200", "OpenOptions append", std::fs::OpenOptions::new().append(true).open(pa.join("a200")).and_then(|mut f| std::io::Write::write_all(&mut f, b"+more")),
+             guarded(|| {
+                 let mut f = tiny_std::fs::OpenOptions::new().append(true).open(&u(pb.join("a200")))?;
+                 f.write_all(b"+more")
+             }));
+        perm("overwrite_0200_no_trunc", "OpenOptions write", std::fs::OpenOptions::new().write(true).open(pa.join("o200")).and_then(|mut f| std::io::Write::write_all(&mut f, b"XY")),
+             guarded(|| {
+                 let mut f = tiny_std::fs::OpenOptions::new().write(true).open(&u(pb.join("o200")))?;
+                 f.write_all(b"XY")
+             }));
+        perm("create_file_in_0300_dir", "write", std::fs::write(pa.join("dir300/new"), b"n"), guarded(|| tiny_std::fs::write(&u(pb.join("dir300/new")), b"n")));
+        perm("create_dir_in_0300_dir", "create_dir", std::fs::create_dir(pa.join("dir300/nd")), guarded(|| tiny_std::fs::create_dir(&u(pb.join("dir300/nd")))));
+        perm("create_dir_all_in_0300_dir", "create_dir_all", std::fs::create_dir_all(pa.join("dir300/x/y")), guarded(|| tiny_std::fs::create_dir_all(&u(pb.join("dir300/x/y")))));
+        perm("remove_file_in_0300_dir", "remove_file", std::fs::remove_file(pa.join("dir300/f")), guarded(|| tiny_std::fs::remove_file(&u(pb.join("dir300/f")))));
+        perm("remove_dir_in_0300_dir", "remove_dir", std::fs::remove_dir(pa.join("dir300/emptysub")), guarded(|| tiny_std::fs::remove_dir(&u(pb.join("dir300/emptysub")))));
+        perm("remove_dir_all_below_0300_dir", "remove_dir_all", std::fs::remove_dir_all(pa.join("dir300/sub2")), guarded(|| tiny_std::fs::remove_dir_all(&u(pb.join("dir300/sub2")))));
+        perm("rename_in_0300_dir", "rename", std::fs::rename(pa.join("dir300/g"), pa.join("dir300/g2")), guarded(|| tiny_std::fs::rename(&u(pb.join("dir300/g")), &u(pb.join("dir300/g2")))));
+        perm("remove_dir_all_of_0300_dir", "remove_dir_all", std::fs::remove_dir_all(pa.join("dir300")), guarded(|| tiny_std::fs::remove_dir_all(&u(pb.join("dir300")))));
+        // results the child can compare itself
+        let s = std::fs::read(pa.join("r400"));
+        let t = guarded(|| tiny_std::fs::read(&u(pb.join("r400"))));
+        emit("read_0400", "read", s.is_ok(), if matches!(t, Ok(Ok(_))) { "ok" } else { "err" }, matches!((&s, &t), (Ok(x), Ok(Ok(y))) if x == y), String::new());
+        let s = listing_std(&pa.join("dir500"));
+        let t = listing_tiny(&pb.join("dir500"));
+        emit("list_0500_dir", "read_dir", s.is_ok(), if t.is_ok() { "ok" } else { "err" }, s.is_ok() && t.is_ok() && s == t, format!("{t:?}"));
+        let s = std::fs::metadata(pa.join("dir100/f")).map(|m| m.len());
+        let t = guarded(|| tiny_std::fs::metadata(&u(pb.join("dir100/f"))).map(|m| m.len()));
+        emit("metadata_in_0100_dir", "metadata", s.is_ok(), if matches!(t, Ok(Ok(_))) { "ok" } else { "err" }, matches!((&s, &t), (Ok(x), Ok(Ok(y))) if x == y), String::new());
+        let s = std::fs::read(pa.join("dir100/f"));
+        let t = guarded(|| tiny_std::fs::read(&u(pb.join("dir100/f"))));
+        emit("read_in_0100_dir", "read", s.is_ok(), if matches!(t, Ok(Ok(_))) { "ok" } else { "err" }, matches!((&s, &t), (Ok(x), Ok(Ok(y))) if x == y), String::new());
         std::io::stdout().flush().unwrap();
         unsafe { libc::_exit(0) };
     }
     let mut status = 0;
     unsafe { libc::waitpid(pid, &mut status, 0) };
+    // root compares what the permission scenarios left in the two twins (kinds and bytes, not modes)
+    fn snapshot(p: &Path, rel: &mut String, out: &mut Vec<(String, String, Vec<u8>)>) {
+        let Ok(md) = std::fs::symlink_metadata(p) else { return };
+        if md.is_dir() {
+            out.push((rel.clone(), "d".into(), Vec::new()));
+            let mut names: Vec<_> = std::fs::read_dir(p).unwrap().map(|e| e.unwrap().file_name()).collect();
+            names.sort();
+            for n in names {
+                let keep = rel.len();
+                rel.push('/');
+                rel.push_str(&n.to_string_lossy());
+                snapshot(&p.join(&n), rel, out);
+                rel.truncate(keep);
+            }
+        } else {
+            out.push((rel.clone(), "f".into(), std::fs::read(p).unwrap_or_default()));
+        }
+    }
+    let (mut sa, mut sb) = (Vec::new(), Vec::new());
+    snapshot(&base.join("A/perm"), &mut String::new(), &mut sa);
+    snapshot(&base.join("B/perm"), &mut String::new(), &mut sb);
+    let diff: Vec<String> = sa.iter().filter(|x| !sb.contains(x)).chain(sb.iter().filter(|x| !sa.contains(x))).map(|x| x.0.clone()).collect();
+    println!("{}", json!({"ev": "unpriv_cmp", "differing_paths": diff}));
     println!("{}", json!({"ev": "unpriv_end", "status": status}));
     let _ = std::fs::remove_dir_all(&base);
 }
